@@ -119,6 +119,12 @@ def run_shard(desc, ctx):
         n = [1024, 1025, 2 ** 14, 2 ** 14 + 1][desc['shard'] - 3]
         run_case({'samples': np.cumsum(rl.choice([0, 1, 1, 2, 3, 30], size=n)).tolist(), 'labels': rl.integers(0, 3, size=n).tolist(), 'k': 3,
                   'bin': 2, 'half': 4, 'rate': 2.0, 'perm': [1, 2, 0], 'unused_pos': 0, 'windowed': True, 'bigids': bool(desc['shard'] % 2)}, ctx)
+    # regular trains (one spike per sample, alternating clusters) in which the number of pairs found at one shift is 65535,
+    # 65536, 65537 or 2 x 65536
+    if desc['shard'] in (9, 10, 11, 12):
+        n_ = [65536, 65537, 65538, 131073][desc['shard'] - 9]
+        run_case({'samples': list(range(n_)), 'labels': [i % 2 for i in range(n_)], 'k': 2, 'bin': 1, 'half': 1, 'rate': 1.0, 'perm': [1, 0],
+                  'unused_pos': 2, 'windowed': True, 'bigids': False}, ctx)
     # thousands of spikes on a few consecutive samples: every spike has thousands of partners inside its window
     if desc['shard'] in (8, 13):
         run_case({'kind': 'dense_block', 'per_sample': [3000, 4500][desc['shard'] == 13], 'n0': [1800, 100][desc['shard'] == 13]}, ctx)
